@@ -288,6 +288,24 @@ def run_property(pid, tier, seed, logdir):
                 (L(("a", 1)), [(0, L(), 16400), (0, L(("n", 1), ("m", 1)), 1), (0, L(("n", 1), ("m", 1)), 1)], False, False),
                 (L(("a", 1)), [(0, L(), 16360), (0, L(("n", 1), ("m", 1)), 1), (0, L(("n", 1), ("m", 1)), 1), (0, L(("k", 1), ("m", 1)), 1)], False, False),
             ]
+            # names inside typed record data take part in compression (offsets are those of the final message, after RDLENGTH)
+            layouts += [
+                (L(("a", 1), ("b", 1)), [(0, L(("a", 1), ("b", 1)), ("ns", L(("n", 1), ("b", 1)))), (2, L(("n", 1), ("b", 1)), 4)], False, False),
+                (L(("a", 1)), [(0, L(("a", 1)), ("afsdb", L(("h", 1), ("z", 1)))), (2, L(("h", 1), ("z", 1)), 4), (0, L(("a", 1)), ("mx", L(("h", 1), ("z", 1))))], False, False),
+                (L(("a", 1)), [(1, L(("a", 1)), ("soa", L(("m", 1), ("a", 1)), L(("r", 1), ("m", 1), ("a", 1)))), (2, L(("r", 1), ("m", 1), ("a", 1)), 1)], True, False),
+            ]
+            # names first written beyond 0x2000 (14-bit pointer offsets that need the upper bits)
+            layouts.append((L(("a", 1)), [(0, L(), 8200), (0, L(("n", 1), ("m", 1)), 1), (0, L(("n", 1), ("m", 1)), 1), (0, L(("k", 1), ("m", 1)), 1)], False, False))
+            if tier == "thorough":
+                layouts += [
+                    (L(("a", 1)), [(0, L(), 12400), (0, L(("n", 1), ("m", 1)), ("cname", L(("c", 1), ("m", 1)))), (0, L(("c", 1), ("m", 1)), 1)], False, False),
+                    (L(("a", 1)), [(0, L(("a", 1)), ("rp", L(("x", 1), ("a", 1)), L(("y", 1), ("x", 1), ("a", 1)))), (0, L(("y", 1), ("x", 1), ("a", 1)), ("ptr", L(("x", 1), ("a", 1))))], False, False),
+                    (L(("a", 1)), [(0, L(("a", 1)), ("rt", L(("h", 1), ("z", 1)))), (2, L(("h", 1), ("z", 1)), 4)], True, True),
+                ]
+            # names first written just below / exactly at / just above offset 0x4000 (= 30 + filler length) and used again
+            for fill in ((16352, 16353, 16354) if tier == "quick" else range(16348, 16359)):
+                if fill != 16360:
+                    layouts.append((L(("a", 1)), [(0, L(), fill), (0, L(("n", 1), ("m", 1)), 1), (0, L(("n", 1), ("m", 1)), 1), (0, L(("k", 1), ("m", 1)), 1)], False, False))
             if tier == "thorough":
                 layouts += [
                     (L(("a", 1), ("b", 1), ("c", 1)), [(0, L(("b", 1), ("c", 1)), 2), (1, L(("c", 1)), 2), (2, L(("z", 1), ("a", 1), ("b", 1), ("c", 1)), 2)], True, False),
@@ -470,6 +488,43 @@ def run_property(pid, tier, seed, logdir):
         except (Unsupported, Unwind) as e:
             return dict(name=name, engine="mirsym", functions=[], bounds="", oracle="", stubs=common_stubs, tier=tier, verdict="inconclusive",
                         reason=f"outside the encoder's subset: {e}", queries=0, solver_time_s=0, failed=[])
+    if pid == "C02":
+        from mirsym import props_addrset, enums as _en2
+        structs2 = _en2.scan_structs(REPO)
+
+        def aset_job(name, thunk, bounds, oracle):
+            t0 = time.time()
+            try:
+                failed, ex, npaths, kinds = thunk()
+                for f in failed:
+                    f["check"] = name
+                return dict(name=name, engine="mirsym", functions=sorted(f.split("::")[-1] for f in ex.encoded_fns), bounds=bounds, oracle=oracle,
+                            stubs=["HashSet<Ipv4Addr> = explicit list of symbolic members / uninterpreted membership predicate / difference / lazily generated (range -> map -> filter) set; "
+                                   "membership is decided through the generator with the real closures executed from MIR",
+                                   "Mutex<RefCell<_>> (address cache) = plain cell (single thread)"] + sorted(ex.used_summaries),
+                            tier=tier, verdict="fail" if failed else "pass", reason="", queries=ex.queries, solver_time_s=round(ex.solver_time, 2), failed=_dedup(failed),
+                            paths=npaths, path_kinds=kinds, wall_s=round(time.time() - t0, 1))
+            except (Unsupported, Unwind) as e:
+                return dict(name=name, engine="mirsym", functions=[], bounds=bounds, oracle=oracle, stubs=[], tier=tier, verdict="inconclusive",
+                            reason=f"outside the encoder's subset: {e}", queries=0, solver_time_s=0, failed=[])
+        D = ("D = { ip | network < ip < broadcast, ip != receiving address, ip not in the union of the address sets of configured policies } "
+             "(erbium.conf(5) `addresses`: all addresses of the subnet except the network address, the broadcast address, the local interface address and any address given in a policy)")
+        for direction in ("sound", "complete"):
+            name = "c02_default_policy_" + direction
+            jobs.append((name, (lambda direction=direction, name=name: aset_job(
+                name, lambda: props_addrset.default_policy_obligation(prog, en, structs2, direction, list(range(0, 33))),
+                "the closure of build_default_config that turns one IPv4 `addresses` prefix into a sub-policy, executed from MIR: prefix address and receiving address symbolic (all 2^32), "
+                "prefix length symbolic over every length the loader accepts (0..=32), addresses used by configured policies = an arbitrary set (uninterpreted predicate); "
+                "the range/map/filter/collect/difference pipeline is evaluated for an arbitrary generator value (sound) / for an arbitrary address of D via its offset (complete)",
+                ("every generated address is in D; no panic or overflow; the sub-policy matches exactly the configured subnet. " if direction == "sound" else "every address of D is generated. ") + D))))
+        for sname, mk in props_addrset.tree_shapes(tier):
+            for twice in (False, True):
+                name = "c02_used_addresses_" + sname + ("_cached" if twice else "")
+                jobs.append((name, (lambda mk=mk, twice=twice, name=name, sname=sname: aset_job(
+                    name, lambda: props_addrset.used_addresses_obligation(prog, en, structs2, mk, twice),
+                    "dhcp::config::Config::get_all_used_addresses + Policy::get_all_used_addresses on the policy tree shape '%s' (which policies have an address set, of how many addresses, and the nesting are concrete; "
+                    "the addresses are symbolic)%s" % (sname, "; called twice (second call served from the per-policy cache)" if twice else ""),
+                    "membership of an arbitrary address in the result == membership in the union of the address sets of every policy at every depth"))))
     for kind, pset in HANDLER.get(pid, []):
         name = f"{pid.lower()}_handle_pkt_{kind}" + (f"_policy_sets_{pset}" if pset else "")
         jobs.append((name, (lambda kind=kind, pset=pset, name=name: handler_job(kind, pset, name))))
